@@ -2,6 +2,7 @@ SPECIFICATION TSpec
 CONSTANTS
   W = 65536
   Anns = {"both"}
+  Devs = {"all", "short", "fail"}
   Sizes = {0}
   MaxFaults = 99
   MaxInject = 99
